@@ -1307,7 +1307,9 @@ class Emitter:
                            'static inline const char *verif_str_at(const struct verif_string *x, size_t i) { __CPROVER_assert(i <= x->n && i < 16, "std::string index within size"); return &x->s[i]; }\n'
                            'static inline void verif_str_push(struct verif_string *x, char c) { __CPROVER_assert(x->n < 15, "verif_string capacity"); x->s[x->n] = c; x->n++; x->s[x->n] = 0; }\n')
             elif nm == 'find':
-                out.append('static inline const %s *verif_find_%s(const %s *b, const %s *e, %s v) { const %s *p = b; while (p != e && *p != v) p++; return p; }\n' % (t, st, t, t, t, t))
+                out.append('static inline const %s *verif_find_%s(const %s *b, const %s *e, %s v) { const %s *p = b; while (p != e && *p != v)\n'
+                           '  __CPROVER_assigns(p) __CPROVER_loop_invariant(__CPROVER_same_object(p, b) && __CPROVER_POINTER_OFFSET(b) <= __CPROVER_POINTER_OFFSET(p) && __CPROVER_POINTER_OFFSET(p) <= __CPROVER_POINTER_OFFSET(e))\n'
+                           '  __CPROVER_decreases(__CPROVER_POINTER_OFFSET(e) - __CPROVER_POINTER_OFFSET(p))\n  { p++; } return p; }\n' % (t, st, t, t, t, t))
             elif nm == 'ftrunc_mul':
                 if 'verif_ftrunc_mul' in self.contracts:
                     out.append('/* library-style binding with an integer contract (validated exhaustively, see the lemma group) */\nint64_t verif_ftrunc_mul(double c, int e)\n%s;\n' % self.contracts['verif_ftrunc_mul'])
